@@ -5680,14 +5680,18 @@ func (a *Agent) handleQueuedState(peerID identity.AgentID, frame *protocol.Frame
 	}
 
 	// Check for sleep/wake commands in queued state
-	if state.SleepCmd != nil && a.sleepMgr != nil {
+	// Queued commands go through the flooder exactly like directly received
+	// ones: signature and timestamp verification (when a signing key is
+	// configured), de-duplication and forwarding. Acting on them unverified
+	// would let any peer put a signed-command agent to sleep.
+	if state.SleepCmd != nil && a.sleepMgr != nil && a.flooder.HandleSleepCommand(peerID, state.SleepCmd) {
 		a.logger.Info("entering sleep mode from queued command")
 		if err := a.sleepMgr.Sleep(); err != nil {
 			a.logger.Error("failed to enter sleep mode from queued command",
 				logging.KeyError, err)
 		}
 	}
-	if state.WakeCmd != nil && a.sleepMgr != nil {
+	if state.WakeCmd != nil && a.sleepMgr != nil && a.flooder.HandleWakeCommand(peerID, state.WakeCmd) {
 		a.logger.Info("waking from queued command")
 		if err := a.sleepMgr.Wake(); err != nil {
 			a.logger.Error("failed to wake from queued command",
